@@ -11,7 +11,7 @@ set_option linter.unusedSimpArgs false
 
 namespace Anko.C09
 open Anko
-variable [FOps]
+variable [FOps] [Prov]
 
 /-! ### try / catch / finally -/
 
